@@ -14,7 +14,7 @@ From Coq Require Import String.
 From Coq Require Import List Arith ZArith.
 Import ListNotations.
 From YP Require Import Base.Str Term.Term Unify.Unify Lang.Ast Comp.IR Comp.CompileBody Comp.CompileClause Sem.Res Sem.RefSem Sem.IRSem Sem.ExecMono
-  Sem.Machine Sem.RunSem Sem.ClauseSem Sem.ProgramCorrect Sem.Native Sem.NativeThms Sem.NativeFacts Sem.NativeSource Engine.RunBoundedM Engine.NativeMono.
+  Sem.Machine Sem.RunSem Sem.ClauseSem Sem.ProgramCorrect Sem.Native Sem.NativeThms Sem.NativeFacts Sem.NativeSource Sem.NativeExc Engine.RunBoundedM Engine.NativeMono.
 
 (* ---- sem_extensional: the answers of a body / of emitted code / of a whole engine depend on a predicate only through
         its answer function (no functional extensionality axiom) *)
@@ -150,6 +150,33 @@ Theorem C20_exception_passthrough_variadic : forall w pname j n name args s,
 Proof. exact exception_passthrough_var. Qed.
 Print Assumptions C20_exception_passthrough_variadic.
 
+(* ---- "... reaches the consumer unchanged".  nqueryE is the same engine with the exception object carried along instead of
+        a bool (Sem/NativeExc.v: XDepth/XUnify/XGoal/XCode are the engine's own, XPy tag is the object a Python predicate
+        raised); forgetting which exception it was gives nquery exactly, so all theorems above speak about this engine *)
+Theorem C20_engine_with_exceptions_refines : forall w n name args s,
+  er (nqueryE n w name args s) = nquery n (erase_world w) name args s.
+Proof. exact erase_nqueryE. Qed.
+Print Assumptions C20_engine_with_exceptions_refines.
+
+(* whatever property the engine's own exceptions and the exceptions raised by the registered predicates have, the exception
+   that ends a query has it: the emitted code, the builtins and YP.query never create, wrap or replace one *)
+Theorem C20_exception_provenance : forall (Q : exn -> Prop), Q XDepth -> Q XUnify -> Q XGoal -> Q XCode ->
+  forall w : worldE,
+  (forall name k f args s e, e_fix w name k = Some f -> snd (f args s) = Some e -> Q e) ->
+  (forall name f args s e, e_var w name = Some f -> snd (f args s) = Some e -> Q e) ->
+  forall n name args s e, snd (nqueryE n w name args s) = Some e -> Q e.
+Proof. exact exception_provenance. Qed.
+Print Assumptions C20_exception_provenance.
+
+(* in particular: if the registered predicates raise nothing but the object XPy tag, a query that does not end by one of the
+   engine's own exceptions ends by exactly that object *)
+Theorem C20_exception_unchanged : forall w tag,
+  (forall name k f args s e, e_fix w name k = Some f -> snd (f args s) = Some e -> e = XPy tag) ->
+  (forall name f args s e, e_var w name = Some f -> snd (f args s) = Some e -> e = XPy tag) ->
+  forall n name args s e, snd (nqueryE n w name args s) = Some e -> engine_exn e \/ e = XPy tag.
+Proof. exact exception_unchanged. Qed.
+Print Assumptions C20_exception_unchanged.
+
 (* ---- the engine without Python predicates and dynamic facts is the engine of Sem/Machine.v, whose compiled programs
         compute the clause-level semantics (C01: machine_computes_clause_semantics) *)
 Theorem C20_plain_is_machine : forall ir, (forall f, In f ir -> Resolve.reserved (fn_name f) = false) ->
@@ -191,5 +218,27 @@ Example C20_nonvacuous :
       (* findall/3 delivers nothing and ends with the exception *)
       ans 1 (nquery 6 (with_raising_fix (w_py ir) (d "q") 1 1) (d "t4") [TVar 0] (st0 1)) = ([], true)
   | _, _ => False
+  end.
+Proof. vm_compute. repeat split. Qed.
+
+(* the same with the exception object: q raises the object XPy 7 instead of its answer number 1; t1 delivers its first
+   answer and then ends with exactly XPy 7, three generator frames up *)
+Definition liftE (f : nfun) : nfunE := fun args s => (fst (f args s), if snd (f args s) then Some XUnify else None).
+Definition wE_py (ir : ir_program) : worldE :=
+  {| e_ir := ir;
+     e_fix := fun n k => if key_eq (n, k) (d "q", 1) then Some (raisingE (liftE (native_rows (map row_of q_rows) [false; true; false])) 1 7)
+                         else if key_eq (n, k) (d "e", 2) then Some (liftE (native_rows (map row_of e_rows) [true; true])) else None;
+     e_var := fun _ => None; e_dyn := fun _ _ => [] |}.
+
+Example C20_exception_nonvacuous :
+  match compile_program ex_rules with
+  | Some ir =>
+      let ta := TAtom (d "a") in let tb := TAtom (d "b") in
+      let r := nqueryE 6 (wE_py ir) (d "t1") [TVar 0; TVar 1] (st0 2) in
+      (map (answer_of 2) (fst r), snd r) = ([[ta; tb]], Some (XPy 7)) /\
+      snd (nqueryE 6 (wE_py ir) (d "t4") [TVar 0] (st0 1)) = Some (XPy 7) /\
+      snd (nqueryE 6 (wE_py ir) (d "t3") [TVar 0] (st0 1)) = None /\
+      snd (nqueryE 1 (wE_py ir) (d "t1") [TVar 0; TVar 1] (st0 2)) = Some XDepth
+  | None => False
   end.
 Proof. vm_compute. repeat split. Qed.
